@@ -106,7 +106,7 @@ def parse_work(arg):
             prog = [A.Declare(A.Var('r'), tree)]
             variants = [("minimal", P.Layout())]
             if rng.random() < 0.5:
-                variants.append(("redundant", P.Layout(seed=rng.random(), p_paren=0.35, p_ws=0.2)))
+                variants.append(("redundant", P.Layout(seed=rng.random(), p_paren=0.35, p_ws=0.2, p_trail=0.4)))
             if rng.random() < 0.5:
                 variants.append(("compact", P.Layout(compact=True)))     # no optional white space at all: `xs[0]-1`, `a--1`
             for vname, lay in variants:
